@@ -1009,7 +1009,7 @@ class Interp:
         if 'move' in op:
             ptr = self.eval_place(st, fid, op['move'])
             v = self.load(st, ptr)
-            if ptr[0] in ('L', 'O') and v[0] not in ('int', 'bool', 'boolc', 'boolu', 'ref'):
+            if ptr[0] in ('L', 'O') and v[0] not in ('int', 'bool', 'boolc', 'boolu', 'ref', 'rawslot'):
                 self.store(st, ptr, MOVED)
             return v
         if 'const' in op:
